@@ -97,7 +97,7 @@ def models(thorough):
         ("kill", fewer, dict(kill=True, starts=(0, 1, 2), all_orders=False), ["ExternalKill"]),
         ("sleep", fewer, dict(max_sleeps=1, starts=(0, 1, 2), all_orders=thorough), ["SleepCall", "WakeUpO"]),
         ("memo", shapes, dict(memo=True, starts=(0, 1, 2), all_orders=thorough), []),
-        ("all", small, dict(kill=True, starts=(0, 1), max_sleeps=2 if thorough else 1, memo=True, all_orders=thorough),
+        ("all", small, dict(kill=True, starts=(0, 1), max_sleeps=1, memo=True, all_orders=thorough),
          ["ExternalKill", "SleepCall", "WakeUpO"]),
         # DoWhile at run time (FixLoopAfterStop = TRUE: the design a repair restores; the deviation has its own run below)
         ("dwkill", SS.G02_DW if thorough else ["dw2"], dict(kill=True, starts=(0, 1), all_orders=False), ["ExternalKill"]),
@@ -319,6 +319,14 @@ def run(tier):
             chk.violation("outcome:%s:%s" % (feat, h.shape_name), "real run: %s: %s" % (what, complaint), rp)
     # ---- 2b. DoWhile at run time: real runs of the looped shapes
     dw_runs(chk, dw, cnt, race)
+    # the shape expansion and the graph the real code builds must have the same edges; a difference makes the real controller
+    # schedule differently from the specification, which the trace validation above reports - if it did not, the shapes
+    # (not the code) are suspect: machinery error
+    drifted = [h for h in runs + dw if getattr(h, "drift", None)]
+    chk.cov["runs_with_graph_edge_drift"] = len(drifted)
+    if drifted and not chk.violations and not chk.known_hit:
+        raise MachineryError("the real workflow graph differs from the shape expansion but no run was rejected: %s %s" % (
+            drifted[0].shape_name, drifted[0].drift))
     other = len(chk.violations)
     for key, text, rp in race:
         chk.violation(key, text, rp)
@@ -532,12 +540,20 @@ def replay(path):
           "external:", h.externals)
     if h.crash:
         chk.violation("crash:%s:%s" % (feature_of(h), h.crash.split(":")[0]), "replayed: %s" % h.crash, d)
-    elif h.stuck or not h.quiescent:
-        chk.violation("stuck:%s:%s" % (feature_of(h), h.shape_name), "replayed: %s" % h.stuck, d)
     else:
-        results, tl = SC.validate_traces("g02replay", [d["shape"]], [h], fixobs=FIXOBS, props=TRACE_PROPS)
-        if results[0]:
-            chk.violation(key_for_trace(h, results[0]), "replayed: %s" % results[0], d)
+        # as in run(): a run in which the environment pre-empted postMortemCheck is matched against the current-code model
+        results, tl = SC.validate_traces("g02replay", [d["shape"]], [h], fixobs=FIXOBS, props=TRACE_PROPS, fix_restart_race=not h.preempted)
+        res = results[0]
+        after_stop = instantiated_after_stop(h)
+        if res is not None and res["kind"] == "property" and h.preempted and race_step(h, res):
+            chk.violation(RACE_KEY, "replayed: %s false on the real states at step %s" % (res["prop"], res["step"]), d)
+        elif after_stop is not None and (h.stuck or not h.quiescent or (res is not None and res.get("prop") == "KillReachesAll")):
+            chk.violation(LOOP_KEY, "replayed: iteration instantiated after the controller stopped executing (step %d); stuck: %s" % (
+                after_stop, h.stuck), d)
+        elif h.stuck or not h.quiescent:
+            chk.violation("stuck:%s:%s" % (feature_of(h), h.shape_name), "replayed: %s" % h.stuck, d)
+        elif res is not None:
+            chk.violation(key_for_trace(h, res), "replayed: %s" % res, d)
         else:
             chk.trace_validated()
     chk.evaluated(("replay",))
